@@ -232,6 +232,7 @@ fn spec_scan<const N: usize>(inp: &Input<N>, base: usize, start: usize, d: char)
     None
 }
 
+#[cfg(feature = "h_delim_scan")]
 #[kani::proof]
 #[kani::stub(std::vec::Vec::push, stub_vec_push)]
 #[kani::unwind(@U_SCAN@)]
@@ -337,6 +338,7 @@ fn stub_push_log(_s: &mut String, ch: char) {
     }
 }
 
+#[cfg(any(feature = "h_escapes", feature = "h_escapes_hex"))]
 fn check_escapes<const N: usize>(inp: &Input<N>) {
     let mut ctx = mk_ctx(String::new());
     let s = process_escapes_into(&inp.cs[..inp.len], &mut ctx, 0);
@@ -359,6 +361,7 @@ fn check_escapes<const N: usize>(inp: &Input<N>) {
 }
 
 /// every text of <= N chars over T_ESC
+#[cfg(feature = "h_escapes")]
 #[kani::proof]
 #[kani::stub(std::vec::Vec::push, stub_vec_push)]
 #[kani::unwind(@U_ESC@)]
@@ -372,6 +375,7 @@ fn escapes() {
 /// texts `\` `x` d2 d3 t, cut to any length <= 5: d2, d3 over T_HEX, t over T_ESC
 /// kani::any() order: len, d2 index, d3 index, t index
 const T_HEX: [char; 7] = ['a', '7', 'F', '+', 'é', 'x', 'g'];
+#[cfg(feature = "h_escapes_hex")]
 #[kani::proof]
 #[kani::stub(std::vec::Vec::push, stub_vec_push)]
 #[kani::unwind(7)]
@@ -384,6 +388,7 @@ fn escapes_hex() {
 }
 
 // ================================================================== C30.lex.handle_num.post
+#[cfg(feature = "h_handle_num_post")]
 #[kani::proof]
 #[kani::stub(std::vec::Vec::push, stub_vec_push)]
 #[kani::unwind(@U_NUM@)]
@@ -465,6 +470,7 @@ fn handle_num_post() {
 // from `/*` just after the FIRST `*/` at or after i+2 (or at/after the end if there is none);
 // no token and no diagnostic is produced -- exactly the effect of the `' '` arm repeated.
 
+#[cfg(feature = "h_line_comment_skip")]
 #[kani::proof]
 #[kani::stub(std::vec::Vec::push, stub_vec_push)]
 #[kani::unwind(@U_CMT@)]
@@ -495,6 +501,7 @@ fn line_comment_skip() {
     assert!(lx.tokens.len() == 0, "C29.line_comment: no token is produced for a comment");
 }
 
+#[cfg(feature = "h_block_comment_skip")]
 #[kani::proof]
 #[kani::stub(std::vec::Vec::push, stub_vec_push)]
 #[kani::unwind(@U_CMT@)]
@@ -642,6 +649,7 @@ fn stub_is_poly_ident(ident: &str) -> bool {
     true
 }
 
+#[cfg(feature = "h_tokenize_total")]
 #[kani::proof]
 #[kani::stub(std::vec::Vec::push, stub_vec_push)]
 #[kani::unwind(@U_TOK@)]
@@ -690,6 +698,7 @@ fn tokenize_total() {
 }
 
 /// every keyword is recognised from its own spelling and is as long as it (concrete, loop over the table)
+#[cfg(feature = "h_keyword_table")]
 #[kani::proof]
 #[kani::unwind(35)]
 #[kani::stub(core::str::count::count_chars, stub_count_chars)]
@@ -726,6 +735,7 @@ fn keyword_table() {
 // str::chars (chars = the scalar values of the source, in order; trusted std), the cursor
 // stands on char k (the main loop's `index` always is a count of consumed chars), then the
 // real emit / handle_num run.  Byte offsets of char positions are computed by `byte_off`.
+#[cfg(feature = "h_span_byte_offsets")]
 #[kani::proof]
 #[kani::stub(std::vec::Vec::push, stub_vec_push)]
 #[kani::unwind(@U_SPAN@)]
@@ -764,5 +774,62 @@ fn span_byte_offsets() {
     assert!(sp.lo <= sp.hi && sp.hi <= blen, "C33.span: token span lies within the source (byte offsets)");
     assert!(sp.lo == byte_off(&inp, k), "C33.span: span.lo is the byte offset of the token's first char (a char boundary)");
     assert!(sp.hi == byte_off(&inp, k2), "C33.span: span.hi is the byte offset just after the token's last char (a char boundary)");
+    core::mem::forget(lx);
+}
+
+// ================================================================== C33.lex.span.ascii
+// The same postcondition as C33.lex.span.byte_offsets restricted to ASCII-only sources, where a
+// char index IS a byte offset -- so it holds on a tree that still has the char-vs-byte defect
+// and isolates every OTHER way a span can be wrong (e.g. a numeric literal whose `_` separators
+// are consumed but not covered).  Alphabet: digit, `_`, `.`, letter, operators `*` `=` `-` `/`,
+// both quotes, backslash, newline, space.
+const T_ASCII: [char; 13] = ['7', '_', '.', 'a', '*', '=', '-', '/', '"', '\'', '\\', '\n', ' '];
+#[cfg(feature = "h_span_ascii")]
+#[kani::proof]
+#[kani::stub(std::vec::Vec::push, stub_vec_push)]
+#[kani::unwind(@U_SPAN@)]
+#[kani::stub(std::string::String::push, stub_string_push)]
+#[kani::stub(core::str::count::count_chars, stub_count_chars)]
+fn span_ascii() {
+    const N: usize = @N_SPAN@;
+    let inp = any_input::<N, 13>(&T_ASCII);
+    let k: u8 = kani::any();
+    let k = k as usize;
+    kani::assume(k < inp.len);
+    let c = inp.cs[k];
+    kani::assume(c == '*' || c == '\n' || c == '7');
+    let mut lx = mk_lexer(&inp);
+    lx.index = k;
+    // the dispatches below are the corresponding lines of tokenize_file
+    let mut k2 = k + 1;
+    if c == '*' {
+        if let Some('=') = lx.peek_char(1) {
+            lx.emit(TokenKind::StarEq);
+            k2 = k + 2;
+        } else {
+            lx.emit(TokenKind::Star);
+        }
+    } else if c == '\n' {
+        lx.emit(TokenKind::Newline);
+    } else {
+        lx.handle_num();
+        // spec: the literal is the maximal [0-9_]+ ( '.' [0-9_]* )? -- separators included
+        while k2 < inp.len && (inp.cs[k2].is_ascii_digit() || inp.cs[k2] == '_') {
+            k2 += 1;
+        }
+        if k2 < inp.len && inp.cs[k2] == '.' {
+            k2 += 1;
+            while k2 < inp.len && (inp.cs[k2].is_ascii_digit() || inp.cs[k2] == '_') {
+                k2 += 1;
+            }
+        }
+    }
+    assert!(lx.tokens.len() == 1);
+    let sp = lx.tokens[0].span;
+    kani::cover!(c == '7' && k2 > k + 2 && k > 0, "reachable: multi-char literal after other text");
+    kani::cover!(c == '*' && k2 == k + 2, "reachable: two-char operator");
+    assert!(sp.lo == k, "C33.span_ascii: span.lo is the offset of the token's first char");
+    assert!(sp.hi == k2, "C33.span_ascii: span.hi is the offset just after the token's last char (every consumed char is covered)");
+    assert!(lx.index == k2, "C33.span_ascii: the cursor moves to the end of the span");
     core::mem::forget(lx);
 }
